@@ -601,3 +601,136 @@ Proof.
   unfold sub_bytes. cbn [fst snd]. rewrite Nat2N.id. rewrite (Hsplit o P1). exact P3.
 Qed.
 
+
+(* ---------- the theorem ---------- *)
+
+(* each distinct byte string counted once, in table order *)
+Fixpoint distinct_len (seen : list (list N)) (t : list (key * list N)) : N :=
+  match t with
+  | [] => 0
+  | (_, d) :: r =>
+      if existsb (bytes_eqb d) seen then distinct_len seen r
+      else N.of_nat (length d) + distinct_len (d :: seen) r
+  end.
+
+Lemma find_equal_app d a b0 :
+  find_equal d (a ++ b0) = match find_equal d a with Some o => Some o | None => find_equal d b0 end.
+Proof.
+  induction a as [|[d' o'] r IH]; [reflexivity|]. cbn [app find_equal].
+  destruct (bytes_eqb d d'); [reflexivity|exact IH].
+Qed.
+
+Definition seen_rel (prev : list (list N * N)) (seen : list (list N)) : Prop :=
+  forall d, d <> [] -> (find_equal d prev = None <-> existsb (bytes_eqb d) seen = false).
+
+Lemma bytes_eqb_nil_r d : d <> [] -> bytes_eqb d [] = false.
+Proof. destruct d; [congruence|reflexivity]. Qed.
+
+Lemma enc_blen ext : forall prev pos seen,
+  seen_rel prev seen -> Forall (fun kd : key * list N => snd kd <> []) ext ->
+  blen (fst (enc_offsets prev pos ext)) = blen prev + distinct_len seen ext.
+Proof.
+  induction ext as [|[k d] r IH]; intros prev pos seen Hrel Hne.
+  - cbn [enc_offsets fst distinct_len]. lia.
+  - pose proof (Forall_inv Hne) as Hd. pose proof (Forall_inv_tail Hne) as Hne'. cbn [snd] in Hd.
+    cbn [enc_offsets distinct_len].
+    destruct (find_equal d prev) as [o|] eqn:Ef.
+    + assert (Hex : existsb (bytes_eqb d) seen = true).
+      { destruct (existsb (bytes_eqb d) seen) eqn:E; [reflexivity|].
+        apply (Hrel d Hd) in E. congruence. }
+      rewrite Hex. rewrite (IH (prev ++ [([], o)]) pos seen); [|
+        |exact Hne'].
+      * rewrite blen_snoc. cbn [length]. lia.
+      * intros d' Hd'. rewrite find_equal_app. cbn [find_equal]. rewrite (bytes_eqb_nil_r d' Hd').
+        destruct (find_equal d' prev) eqn:E'.
+        -- split; [discriminate|]. intros H. apply (Hrel d' Hd') in H. congruence.
+        -- split; [intros _; now apply (Hrel d' Hd')|reflexivity].
+    + assert (Hex : existsb (bytes_eqb d) seen = false) by (now apply (Hrel d Hd)).
+      rewrite Hex.
+      rewrite (IH (prev ++ [(d, pos)]) ((pos + N.of_nat (length d)) mod u32) (d :: seen)); [| |exact Hne'].
+      * rewrite blen_snoc. lia.
+      * intros d' Hd'. rewrite find_equal_app. cbn [find_equal existsb].
+        destruct (find_equal d' prev) eqn:E'.
+        -- split; [discriminate|]. intros H. apply orb_false_iff in H. destruct H as [_ H].
+           apply (Hrel d' Hd') in H. congruence.
+        -- pose proof (proj1 (Hrel d' Hd') E') as Hs. rewrite Hs, orb_false_r.
+           destruct (bytes_eqb d' d); split; congruence.
+Qed.
+
+Definition total_len (t : list (key * list N)) : N := N.of_nat (length (flat_map snd t)).
+
+Lemma table_roundtrip_lemma (t : list (key * list N)) :
+  keys_sorted (map fst t) = true ->
+  Forall wf_entry t ->
+  N.of_nat (length t) <= 65535 ->
+  4 + 8 * N.of_nat (length t) + total_len t < u32 ->
+  exists b, M_encode_table t = Ok b /\ M_decode_table_bytes b = Ok t /\
+            N.of_nat (length b) = 4 + 8 * N.of_nat (length t) + distinct_len [] t.
+Proof.
+  intros Hks Hwf Hn Hsz. unfold total_len in *.
+  set (n := N.of_nat (length t)) in *.
+  set (eoh := 4 + 8 * n).
+  assert (Hne : Forall (fun kd => snd kd <> []) t).
+  { eapply Forall_impl; [|exact Hwf]. intros [[[p e] l] d] (_ & _ & H10 & _). cbn [snd].
+    intros ->. cbn [length] in H10. lia. }
+  destruct (enc_offsets_ok eoh t [] eoh) as (ext & E1 & E2 & E3 & E4).
+  { change (blen []) with 0. lia. } { change (blen []) with 0. subst eoh. lia. } { exact Hne. }
+  cbn [app] in E1, E2, E3, E4.
+  assert (Hbl0 : blen [] = 0) by reflexivity. rewrite Hbl0 in E4.
+  pose proof (ext_ok_length eoh ext [] (map snd t) E2) as Lext. rewrite map_length in Lext.
+  unfold M_encode_table. fold n. replace ((4 + 8 * n) mod u32) with eoh by (subst eoh; unfold u32 in *; lia).
+  destruct (enc_offsets [] eoh t) as [ext0 pos] eqn:Eo. cbn [fst snd] in E1, E3. subst ext0 pos.
+  replace (eoh + blen ext <? eoh) with false by lia.
+  set (R := flat_map rec_bytes (combine (map fst t) ext)).
+  set (B := flat_map fst ext).
+  assert (LR : length R = (8 * length t)%nat).
+  { subst R. rewrite (length_flat_map_const rec_bytes 8) by apply rec_bytes_length.
+    rewrite combine_length, map_length. lia. }
+  set (b := [0; 0] ++ be16 n ++ R ++ B).
+  assert (Lb : N.of_nat (length b) = eoh + N.of_nat (length B)).
+  { subst b eoh. rewrite !app_length, be16_length, LR. cbn [length]. subst n. lia. }
+  assert (HB : N.of_nat (length B) = blen ext) by reflexivity.
+  exists b. split; [reflexivity|].
+  assert (Hsplit : forall o, eoh <= o -> skipn (N.to_nat o) b = skipn (N.to_nat (o - eoh)) B).
+  { intros o Ho. subst b.
+    change ([0; 0] ++ be16 n ++ R ++ B) with (([0; 0] ++ be16 n ++ R) ++ B).
+    assert (Lpre : length ([0; 0] ++ be16 n ++ R) = N.to_nat eoh).
+    { rewrite !app_length, be16_length, LR. cbn [length]. subst eoh n. lia. }
+    set (pre := [0; 0] ++ be16 n ++ R) in *.
+    rewrite skipn_app, Lpre. rewrite skipn_all2 by lia. cbn [app]. f_equal. lia. }
+  split.
+  2:{ rewrite Lb, HB. pose proof (enc_blen t [] eoh [] ltac:(intros d0 _; split; reflexivity) Hne) as Hbl.
+      rewrite Eo in Hbl. cbn [fst] in Hbl. rewrite Hbl. change (blen []) with 0. subst eoh. lia. }
+  (* decoding *)
+  unfold M_decode_table_bytes, M_decode_table.
+  replace ((N.of_nat (length b) <? 4) || (4294967295 <? N.of_nat (length b))) with false
+    by (unfold u32 in *; lia).
+  assert (G0 : get16 b 0 = Ok 0) by reflexivity.
+  assert (G2 : get16 b 2 = Ok n).
+  { assert (H : skipn (N.to_nat 2) b = (n / 256) mod 256 :: n mod 256 :: R ++ B) by reflexivity.
+    rewrite (get16_of_skipn b 2 _ _ _ H). f_equal. lia. }
+  rewrite G0. cbn [obind N.eqb negb]. rewrite G2. cbn [obind].
+  fold eoh. replace (N.of_nat (length b) <? eoh) with false by lia.
+  replace (eoh mod u32) with eoh by (unfold u32 in *; lia).
+  replace (N.of_nat (length b) mod u32) with (N.of_nat (length b)) by (unfold u32 in *; lia).
+  replace (N.to_nat n) with (length ext) by (subst n; lia).
+  destruct (ext_ok_placed eoh ext [] (map snd t) E2) as [_ Hpl].
+  { intros d o []. }
+  { rewrite Forall_map. exact Hne. }
+  cbn [app] in Hpl. fold B in Hpl.
+  assert (HH : dec_records b eoh (N.of_nat (length b)) (length ext) 0 ([], [])
+               = Ok (ranges ext, combine (map fst t) (combine (map snd ext) (lens (map snd t))))).
+  { apply (dec_records_enc b B eoh ltac:(lia) Hsplit Lb ext (map fst t) (map snd t) [] 0 [] B).
+    - rewrite map_length. lia.
+    - rewrite map_length. lia.
+    - reflexivity.
+    - reflexivity.
+    - exact E2.
+    - change (blen []) with 0. cbn [ranges chain]. lia.
+    - exact Hpl.
+    - rewrite combine_fst_snd. exact Hwf.
+    - constructor.
+    - exact Hks. }
+  rewrite HH. cbn [obind snd]. unfold omap, obind. f_equal.
+  apply (restore_bytes b B eoh Hsplit t ext Hpl).
+Qed.
